@@ -35,8 +35,9 @@ type mInst struct {
 	tab0     *mTable
 	tab1     *mTable
 	glob     *mGlob
-	impFrom  int // instance the function import is bound to, -1 none
-	globFrom int // instance the funcref global is imported from, -1 none
+	impFrom  int  // instance the function import is bound to, -1 none
+	globFrom int  // instance the funcref global is imported from, -1 none
+	handed   bool // handed out a reference it does not own to a holder that does not keep it alive
 }
 
 type mCM struct {
@@ -146,12 +147,50 @@ func (m *model) addInst(rt, spec, cm int, name string) {
 	} else {
 		in.glob = &mGlob{owner: -1, definer: h}
 	}
+	if sp.GlobFrom == "" {
+		switch {
+		case sp.GlobInit == 2 && sp.ImpFrom != "":
+			in.glob.owner = m.importedRefOwner(h)
+		case sp.GlobInit >= 1:
+			in.glob.owner = h
+		}
+	}
 	if sp.Elem >= 0 && sp.Elem < tableSlots {
 		in.tab0.slots[sp.Elem] = h
+		if sp.ElemImp && sp.ImpFrom != "" {
+			in.tab0.slots[sp.Elem] = m.importedRefOwner(h)
+		}
 	}
 	if name != "" {
 		m.names[rt][name] = h
 	}
+}
+
+// importedRefOwner: who owns the function record behind a reference to the function that
+// instance h imports (ref.func at run time, an element segment or a global initialiser naming
+// the imported index). The compiler asks the DEFINING instance's engine for the reference; the
+// interpreter points into the importer's own function array.
+func (m *model) importedRefOwner(h int) int {
+	if in := m.insts[h]; m.cfg.Engine == "compiler" && in.impFrom >= 0 {
+		return in.impFrom
+	}
+	return h
+}
+
+// ownerOf is the owner of the reference a move step would fetch.
+func (m *model) ownerOf(s step) int {
+	switch s.Src {
+	case "func":
+		if s.K >= 2 {
+			return m.importedRefOwner(s.Inst)
+		}
+		return s.Inst
+	case "slot":
+		return m.table(s.Inst, s.K).slots[s.Slot]
+	case "glob":
+		return m.insts[s.Inst].glob.owner
+	}
+	return -1
 }
 
 func (m *model) hasName(rt int, name string) bool {
@@ -220,21 +259,7 @@ func (m *model) apply(s step) {
 		if !m.live(s.Inst) || !m.live(s.To) || m.insts[s.Inst].rt != m.insts[s.To].rt {
 			return
 		}
-		owner := -1
-		switch s.Src {
-		case "func":
-			owner = s.Inst
-			if s.K >= 2 && m.cfg.Engine == "compiler" && m.insts[s.Inst].impFrom >= 0 {
-				// ref.func of an imported function: the compiler asks the defining instance's
-				// engine for the reference; the interpreter points into the importer's own
-				// function array
-				owner = m.insts[s.Inst].impFrom
-			}
-		case "slot":
-			owner = m.table(s.Inst, s.K).slots[s.Slot]
-		case "glob":
-			owner = m.insts[s.Inst].glob.owner
-		}
+		owner := m.ownerOf(s)
 		if s.Dst == "slot" {
 			m.table(s.To, s.DTbl).slots[s.DSlot] = owner
 		} else {
@@ -242,6 +267,13 @@ func (m *model) apply(s step) {
 		}
 		if owner >= 0 && owner != s.To {
 			m.labels["foreign-reference-stored"] = true
+		}
+		if owner >= 0 && owner != s.Inst && !m.closure(s.To)[s.Inst] {
+			// the reference designates a function of another instance than the one that handed it
+			// out, and its new holder does not keep the hander alive: the reference must outlive
+			// the hander (e.g. an importer passing ref.func of its import back to the definer)
+			m.insts[s.Inst].handed = true
+			m.labels["reference-must-outlive-the-instance-that-handed-it-out"] = true
 		}
 	case "long":
 		c := &mCall{inst: s.Inst, finished: !m.live(s.Inst)}
@@ -342,6 +374,11 @@ func (m *model) observe() {
 			if x >= 0 && x != h && m.collected(x) {
 				m.labels["use-reaches-collected-instance-via-"+how] = true
 				m.nontrivial = true
+			}
+		}
+		for x, xi := range m.insts {
+			if xi.handed && x != h && m.collected(x) {
+				m.labels["use-after-hander-of-foreign-reference-collected"] = true
 			}
 		}
 		reach(in.impFrom, "import")
@@ -514,6 +551,13 @@ func genSpecs(t *rapid.T) []modSpec {
 		}
 		if rapid.Bool().Draw(t, "has_elem") {
 			s.Elem = rapid.IntRange(0, tableSlots-1).Draw(t, "elem")
+			s.ElemImp = s.ImpFrom != "" && rapid.Bool().Draw(t, "elem_imp")
+		}
+		if s.GlobFrom == "" {
+			s.GlobInit = rapid.SampledFrom([]int{0, 0, 1, 2}).Draw(t, "glob_init")
+			if s.GlobInit == 2 && s.ImpFrom == "" {
+				s.GlobInit = 1
+			}
 		}
 		specs[i] = s
 	}
@@ -742,35 +786,50 @@ func genStep(t *rapid.T, m *model, excluded *int) (s step, ok bool) {
 			s.Arg = rapid.IntRange(0, tableSlots-1).Draw(t, "arg")
 		}
 	case "move":
-		// pairs (from,to) in one runtime; pairs in which `to` keeps `from` reachable are the
-		// ones whose later close/drop/gc of `from` is inside the property, so they are favoured
-		type pair struct{ from, to int }
-		var pairs []pair
-		for _, f := range liveI {
-			for _, to := range liveI {
-				if m.insts[f].rt == m.insts[to].rt {
-					pairs = append(pairs, pair{f, to})
-				}
-			}
-		}
-		pr := weighted(t, "pair", pairs, func(p pair) int {
-			switch {
-			case p.from != p.to && m.keeps(p.to, p.from):
-				return 12
-			case p.from == p.to:
-				return 2
+		// first what is fetched from whom, then where it goes: destinations that keep the owner
+		// of the reference reachable (or are the owner) give histories inside the property;
+		// among those, the ones that do NOT keep the handing-out instance alive are the shape
+		// "the reference must outlive whoever passed it on" and are favoured most
+		s.Inst = weighted(t, "from", liveI, func(h int) int {
+			if m.insts[h].impFrom >= 0 {
+				return 3
 			}
 			return 1
 		})
-		s.Inst, s.To = pr.from, pr.to
-		s.Src = rapid.SampledFrom([]string{"func", "func", "func", "func", "slot", "slot", "glob", "null"}).Draw(t, "src")
+		srcs := []string{"func", "func", "func", "func", "slot", "slot", "glob", "null"}
+		s.Src = rapid.SampledFrom(srcs).Draw(t, "src")
 		switch s.Src {
 		case "func":
-			s.K = rapid.IntRange(0, 2).Draw(t, "k")
+			ks := []int{0, 1, 2}
+			if m.insts[s.Inst].impFrom >= 0 {
+				ks = []int{0, 1, 2, 2, 2}
+			}
+			s.K = rapid.SampledFrom(ks).Draw(t, "k")
 		case "slot":
 			s.K = rapid.IntRange(0, 1).Draw(t, "stbl")
 			s.Slot = rapid.IntRange(0, tableSlots-1).Draw(t, "sslot")
 		}
+		owner := m.ownerOf(s)
+		var tos []int
+		for _, h := range liveI {
+			if m.insts[h].rt == m.insts[s.Inst].rt {
+				tos = append(tos, h)
+			}
+		}
+		s.To = weighted(t, "to", tos, func(to int) int {
+			cl := m.closure(to)
+			switch {
+			case owner < 0:
+				return 1
+			case !cl[owner]:
+				return 1 // would dangle once the owner goes: the excluded class blocks its drop later
+			case owner != s.Inst && !cl[s.Inst]:
+				return 16
+			case to != s.Inst:
+				return 8
+			}
+			return 2
+		})
 		s.Dst = rapid.SampledFrom([]string{"slot", "slot", "slot", "glob"}).Draw(t, "dst")
 		if s.Dst == "slot" {
 			s.DTbl = rapid.IntRange(0, 1).Draw(t, "dtbl")
@@ -783,7 +842,7 @@ func genStep(t *rapid.T, m *model, excluded *int) (s step, ok bool) {
 		s.Call = pick(pending, "call")
 	case "close":
 		s.Inst = weighted(t, "inst", liveI, func(h int) int {
-			if m.referenced(h) {
+			if m.referenced(h) || m.insts[h].handed {
 				return 10
 			}
 			return 1
@@ -794,7 +853,7 @@ func genStep(t *rapid.T, m *model, excluded *int) (s step, ok bool) {
 		s.RT = pick(closable, "rt")
 	case "drop":
 		s.Inst = weighted(t, "inst", closedUndropped, func(h int) int {
-			if m.referenced(h) {
+			if m.referenced(h) || m.insts[h].handed {
 				return 6
 			}
 			return 1
